@@ -28,7 +28,7 @@ RULE = (
     "(k < n_iter) and the run stopped early; distinct by (kind, optimizer, origin, k, n_iter, tracked)."
 )
 ASSUMPTIONS = [
-    "faults are NaN values (the property speaks of NaN parameters); +-inf is not injected",
+    "faults are NaN values (the property speaks of NaN parameters); +inf is injected only as the precursor of a NaN (origin inf_then_nan): infinite parameters do not stop training and are NaN-free",
     "the reference loop shares the loss and optimizer objects with the run under test",
     "x64; 1e-10 relative tolerance; NaN-aware comparison of histories",
 ]
@@ -36,7 +36,7 @@ BOUNDS = {
     "quick": {"kinds": ["ode"], "opts": ["sgd", "adam"], "n_iters": [1, 3, 5], "tracked": ["none", "eq"]},
     "thorough": {"kinds": ["ode", "statio", "nonstatio"], "opts": ["sgd", "adam", "chain"], "n_iters": [1, 2, 3, 5, 7], "tracked": ["none", "eq", "nn+eq"]},
 }
-ORIGINS = ["loss", "grad_nn", "grad_nn_last", "grad_eq", "update", "grad_nn_entry"]
+ORIGINS = ["loss", "grad_nn", "grad_nn_last", "grad_eq", "update", "grad_nn_entry", "inf_then_nan"]
 
 
 def cases(tier, seed):
@@ -60,7 +60,7 @@ def cases(tier, seed):
     return out
 
 
-def nan_at(k, select, single_entry=False):
+def nan_at(k, select, single_entry=False, value=jnp.nan):
     def init(params):
         return jnp.zeros([], jnp.int32)
 
@@ -68,9 +68,9 @@ def nan_at(k, select, single_entry=False):
         def poison(x):
             if single_entry:  # only the first entry of a multi-entry leaf becomes NaN
                 flat = jnp.ravel(x)
-                flat = flat.at[0].set(jnp.where(state == k, jnp.nan, flat[0]))
+                flat = flat.at[0].set(jnp.where(state == k, value, flat[0]))
                 return flat.reshape(x.shape)
-            return jnp.where(state == k, jnp.nan, x)
+            return jnp.where(state == k, value, x)
 
         poisoned = eqx.tree_at(select, updates, replace_fn=poison)
         return poisoned, state + 1
@@ -114,6 +114,11 @@ def build(case):
         tx = optax.chain(nan_at(kk, lambda p: jax.tree_util.tree_leaves(p.nn_params)[-1]), base)
     elif case["origin"] == "grad_eq":
         tx = optax.chain(nan_at(kk, lambda p: p.eq_params["a"]), base)
+    elif case["origin"] == "inf_then_nan":
+        # a divergence: the last bias overflows to +inf at iteration k (infinite, but not NaN: training goes on and these
+        # are the last NaN-free parameters), NaN follows at iteration k + 1
+        tx = optax.chain(base, nan_at(kk, lambda p: jax.tree_util.tree_leaves(p.nn_params)[-1], value=jnp.inf),
+                         nan_at(kk + 1, lambda p: jax.tree_util.tree_leaves(p.nn_params)[0]))
     else:
         tx = optax.chain(base, nan_at(kk, lambda p: jax.tree_util.tree_leaves(p.nn_params)[1]))
     return P, tx
@@ -131,7 +136,10 @@ def run_case(case):
     v = []
     # harness self-check: the reference must have stopped exactly at k
     exp_done = n_iter if k is None else k + 1
-    if ref["n_done"] != exp_done or (k is not None and ref["stopped"] != "nan"):
+    if case["origin"] == "inf_then_nan" and k is not None:
+        exp_done = min(n_iter, k + 2)
+    if ref["n_done"] != exp_done or (k is not None and exp_done < n_iter and ref["stopped"] != "nan") or (
+            k is not None and case["origin"] != "inf_then_nan" and ref["stopped"] != "nan"):
         raise RuntimeError(f"fault seam did not fire as scripted: ref stopped at {ref['n_done']} ({ref['stopped']}), expected {exp_done}")
     ret = out[0]
     if tl.has_nan(ret):
@@ -140,7 +148,7 @@ def run_case(case):
         ok, msg = tl.leaves_close(ret, ref["params"])
         if not ok:
             v.append(V(site, "returned_params_are_not_those_held_before_the_failing_update", f"fault at iteration {k} of {n_iter}: {msg}"))
-        if k == 0:
+        if k == 0 and case["origin"] != "inf_then_nan":
             same = all(np.array_equal(np.asarray(a), np.asarray(b)) for a, b in zip(jax.tree_util.tree_leaves(ret), jax.tree_util.tree_leaves(P["params"])))
             if not same:
                 v.append(V(site, "fault_at_first_iteration_does_not_return_initial_params", ""))
